@@ -397,6 +397,18 @@ def oracle_C06(ctx, i):
     if s == "panic":
         return ["calculate_size panicked"]
     n = size_of(I)
+    if "size" not in I and meta["cfg"]["k"] in ("chunk", "item"):
+        # stand-alone SDES chunk / item builders: the protocol has no size line for them; the size a
+        # valid one announces is the length of its RFC image, an invalid one fails with its rule
+        v = gen.violations(meta["cfg"])
+        if not v:
+            n = len(gen.encode(meta["cfg"])); s = f"ok:{n}"
+        else:
+            for j, (L, fill) in enumerate(meta.get("bufs", [])):
+                r = I.get(f"w{j}.res")
+                if r is not None and (r == "panic" or r.startswith("ok:")):
+                    out.append(f"invalid {meta['cfg']['k']} ({v[0]}) but write_into returned {r}")
+            return out
     if n is not None and meta["cfg"]["k"] in WHOLE and n % 4:
         out.append(f"size {n} of a whole packet is not a multiple of 4")
     for j, (L, fill) in enumerate(meta.get("bufs", [])):
